@@ -899,6 +899,8 @@ class FnTr:
             [t.id for t in s.target.elts if isinstance(t, ast.Name)] if isinstance(s.target, ast.Tuple) else None
         if not targets or (isinstance(s.target, ast.Tuple) and len(targets) != len(s.target.elts)):
             raise Unsupported(f'`{self.inst.qual}`: loop target `{ast.unparse(s.target)}`')
+        if any(isinstance(n, ast.Name) and n.id in assigned for n in ast.walk(s.iter)):
+            raise Unsupported(f'`{self.inst.qual}`: the loop body changes what `{ast.unparse(s.iter)}` iterates over')
         state = [n for n in self.env if n in assigned and n not in targets]
         fixed = [n for n in self.env if n not in state and self.env[n].typ not in ('None', 'Kw')]
         elem = xs.typ[5:]
